@@ -11,8 +11,8 @@ ENTRIES = [1, 2, 3, 5, 8, 16]
 def pick(rnd, i):
     n = ENTRIES[i % len(ENTRIES)]
     aw, fw = rnd.randint(1, min(4, n)), rnd.randint(1, 3)
-    init = [-1, rnd.getrandbits(n), 0][(i // len(ENTRIES)) % 3]
-    case = {"kind": "PEAlloc", "entries": n, "alloc_ways": aw, "free_ways": fw, "init": init & ((1 << n) - 1)}
+    init = [-1, rnd.getrandbits(n), 0, ~rnd.getrandbits(n)][(i // len(ENTRIES)) % 4]  # incl. negative partial masks
+    case = {"kind": "PEAlloc", "entries": n, "alloc_ways": aw, "free_ways": fw, "init": init, "init_mask": init & ((1 << n) - 1)}
 
     def make(r):
         return PriorityEncoderAllocator(n, aw, fw, init=init), PEAllocM(n, aw, fw, init)
@@ -23,7 +23,7 @@ def pick(rnd, i):
 CHECK = ComponentCheck("C25", pick, drain=0)
 shards, run_shard = CHECK.shards, CHECK.run_shard
 RULE = ("histories = hostile random alloc[i]/free[j]/peek/replace/clear sequences for entries in {1,2,3,5,8,16}, 1-4 alloc ways, 1-3 free ways, init "
-        "in {all free, random, none}; only allocated identifiers are freed, each at most once per cycle; non-trivial distinct case = (config, number of "
+        "in {all free (-1), random non-negative mask, none, negative partial mask ~m}; only allocated identifiers are freed, each at most once per cycle; non-trivial distinct case = (config, number of "
         "simultaneous allocs and frees, clear/replace, number of free identifiers)")
 ASSUMPTIONS = ["frees respect the documented precondition (generator consults the model)", "clear and replace conflict (clear calls replace): only progress of the pair is required"]
 MINIMA = {"quick": {"cycles": 5000, "calls:alloc": 1000, "calls:free": 1000, "calls:peek": 500, "distinct": 40}, "thorough": {"cycles": 500000, "distinct": 150}}
